@@ -214,9 +214,27 @@ def run_meta(ctx, variants_fn, n_valid, n_mut, what, rule, trusted, k=4):
             if len(set(ids)) != len(ids) or any(x >= 900 for x in ids):
                 continue
             maps = [None, {x: j for j, x in enumerate(ids)}, {x: j + 1 for j, x in enumerate(ids)}, {x: ids[len(ids) - 1 - j] for j, x in enumerate(ids)}]
+            # checkpoint ids that are referenced but not declared (dangling on purpose) must stay undeclared under
+            # every renumbering: they move to ids no native checkpoint takes
+            refd = set()
+            def collect(x):
+                if isinstance(x, (tuple, list)):
+                    if len(x) == 2 and x[0] == "checkpoint" and isinstance(x[1], int):
+                        refd.add(x[1])
+                    for y in x:
+                        collect(y)
+                elif isinstance(x, dict):
+                    for y in x.values():
+                        collect(y)
+            collect([case["native"]["actions"], case["native"]["groups"], [c["deps"] for c in case["native"]["checkpoints"]],
+                     [cn["add"] for imp in case["imports"] for cn in imp["conns"]]])
+            free = sorted(x for x in refd if x not in ids and 0 <= x < 900)
+            for mp in maps[1:]:
+                for k, f in enumerate(free):
+                    mp[f] = 700 + k
             for v, (sp, mp) in enumerate(zip(("id", "alias", "mixed", "mixed"), maps)):
                 cv = case if mp is None else renumber_native_checkpoints(case, mp)
-                r = {"spelling": sp, "shuffle": False, "seed": rng.randrange(1 << 30), "native_checkpoint_ids": "as generated" if mp is None else sorted(mp.values())}
+                r = {"spelling": sp, "shuffle": False, "seed": rng.randrange(1 << 30), "native_checkpoint_ids": "as generated" if mp is None else sorted(mp[x] for x in ids)}
                 doc = I.render_i(cv, ctx.repo_copy, random.Random(r["seed"]), sp, False, False)
                 iitems.append(engine.Item(cv, doc, "valid-imports" if name is None else "mutant-imports", mutator=name, owner="C16" if name else None,
                                           desc=desc, render=r, group="i%d" % i))
